@@ -39,6 +39,7 @@ def check(ex, info):
     for t, root in enumerate(ex.trees()):
         check_tree(ex, info, root, t, fails)
     fails.extend(G.check_rejected(ex, info))
+    fails.extend(G.check_sort_failure(ex, info))
     check_call(ex, info, fails)
     return fails
 
@@ -202,6 +203,7 @@ def check_call(ex, info, fails):
 # ---------------------------------------------------------------- the property
 
 FAILURE_PATH_SHARE = 0.3
+SORT_FAILURE_SHARE = 0.04
 
 
 def _sc(cid, k, name=None, default=None, opt=False):
@@ -258,6 +260,8 @@ class C08(Property):
         "Flatland.C08.Proofs.rejected_node_unchanged",
         "Flatland.C08.Proofs.rejected_seq_unchanged",
         "Flatland.C08.Proofs.rejected_map_unchanged",
+        "Flatland.C08.Proofs.keyed_sort_only_refuses",   # round m1: the model's keyed sort sorts or declines, it never raises
+        "Flatland.C08.Proofs.keyed_sort_sorts",
         "Flatland.C08.Proofs.extend_keeps_prefix",
         "Flatland.C08.Proofs.setitem_plain_sets_in_place",
         # the added hypotheses are needed (negation witnesses on the model)
@@ -289,13 +293,20 @@ class C08(Property):
                   "target with the same identity and subtree, its stored parent pointer designating the container (through a "
                   "slot that the List lists and that points to the List). HYPOTHESES beyond the property text, each with a "
                   "negation witness (see below). FAILURE PATHS (round h8): rejected_step_unchanged — a call of the model on a rejection "
-                  "route (seqAtomic / mapAtomic = g1common.atomic_route: everything but extend/+=/*=/update/|=/set/set_default, "
-                  "an in-place `lst[i] = plain` with a valid index, assignment of a present/declared key, key-less sort; "
+                  "route (seqAtomic / mapAtomic: everything but extend/+=/*=/update/|=/set/set_default, "
+                  "an in-place `lst[i] = plain` with a valid index, assignment of a present/declared key, and EVERY sort, key-less or keyed; "
                   "witnesses extend_keeps_prefix, setitem_plain_sets_in_place) that raises returns the WHOLE tree as it was — "
                   "structure, identities, stored parents, slot names — and reports nothing as detached; tied to the code by the "
                   "rejected calls with plain / fresh / pooled arguments in the compared histories and, for live arguments "
                   "(members of a live tree handed in: aliasing, not representable in the model), by the oracle clause "
-                  "rejected-changes-nothing on every kept tree. Hypotheses: keys unique in every mapping node and mapping class (kok, decidable, preserved: the "
+                  "rejected-changes-nothing on every kept tree. SORT (round m1): sort is on NO rejection route of the theorems — the model's keyed sort "
+                  "either sorts (sortGate) or answers `.unsupported`, which is the model declining, not a statement about the code "
+                  "(keyed_sort_only_refuses); the code has two raising paths: the KEY FUNCTION raises (CPython restores the list: oracle route "
+                  "sort-key, rejected-changes-nothing) and a COMPARISON raises / the list is modified during the sort (CPython leaves the list "
+                  "REARRANGED: not a rejection; the oracle demands sort-keeps-members = the same element objects in some order, "
+                  "sort-slots-named-by-position, sort-member-parents-agree plus the five tree clauses — the defect repaired by 9873cdc "
+                  "violated the second). What the repair establishes is proved for the model's `renumber` in Proofs/C09SortFailure.lean "
+                  "(sort_failure_any_permutation_dps: for EVERY permutation of the slots). Hypotheses: keys unique in every mapping node and mapping class (kok, decidable, preserved: the "
                   "model's dict assignment overwrites every child under the key — uniqueIds_needs_keys), arguments below the "
                   "counter (uniqueIds_needs_below), no aliasing (uniqueIds_needs_fresh). ORACLE ONLY: set_flat/from_flat/"
                   "from_object routes; Compound/JoinedString nodes; model paths answering `unsupported`")
@@ -326,7 +337,11 @@ class C08(Property):
         "stale (Array.pop / del / SparseDict.pop leave it; List.pop clears the slot's, so a popped member's root is its "
         "orphaned ListSlot). They are observed (read) at random points and their root / parents / path must agree with "
         "one another",
-        "sort keys range over {u, len(u)}",
+        "sort keys of the compared histories range over {u, len(u), len(member), member[first field].u} (total orders; the last two raise inside "
+        "the KEY FUNCTION on members they do not apply to: rejection route sort-key).  Sorts whose COMPARISON raises (key = .value over ints "
+        "and None, a key object whose `<` raises after k comparisons or appends to the list being sorted) are generated in 4 % of the cases, "
+        "oracle only: no theorem covers them (the model cannot fail inside a comparison); CPython's behaviour — the list is left in SOME "
+        "rearrangement of the same items — is taken as given, the oracle checks that the library is consistent with whatever order resulted",
     ]
     rule = ("schemas nested up to 3 deep over List/Array/MultiValue/Dict/SparseDict/Integer/String with defaults, 30 % of "
             "them also with DateYYYYMMDD compounds (blank / valid / unparseable / made unparseable part by part) and "
@@ -337,7 +352,7 @@ class C08(Property):
             "(sequence op or mapping op according to its kind), with plain values, fresh Elements and Elements "
             "detached by earlier calls or owned by another container; cases the Lean model does not cover (flat routes, "
             "model paths answering unsupported) are marked oracle-only before the run and are not counted as validated "
-            "traces (tag model=oracle-only); Reading is part of the history: Element arguments (fresh, foreign-owned, pooled, populated subtrees) have root/path/parents/fq_name READ before they are handed over in half of the cases, and 'observe' steps read every reachable and every detached element; 15 % of nested mapping classes are derived from an already used parent class with another field list. 30 % of the histories (tag fp:case, oracle only) exercise FAILURE / RECOVERY paths: a second tree of the root class kept alive (75 %), a third of the calls aimed at it, live members of either tree (same container / another container / other tree; 10 % of any class) as arguments of item and slice assignment, insert, append, extend, +=, mapping item assignment and update, rejected calls (out-of-range and non-integer indexes, extended-slice size mismatches, items the member schema rejects, undeclared keys, a sort key that raises) with plain, fresh, pooled and live arguments, each followed by the full observation of every kept tree and by calls that succeed; non-trivial = the tree has at least 4 elements at some point and at least 3 "
+            "traces (tag model=oracle-only); Reading is part of the history: Element arguments (fresh, foreign-owned, pooled, populated subtrees) have root/path/parents/fq_name READ before they are handed over in half of the cases, and 'observe' steps read every reachable and every detached element; 15 % of nested mapping classes are derived from an already used parent class with another field list. 30 % of the histories (tag fp:case, oracle only) exercise FAILURE / RECOVERY paths: a second tree of the root class kept alive (75 %), a third of the calls aimed at it, live members of either tree (same container / another container / other tree; 10 % of any class) as arguments of item and slice assignment, insert, append, extend, +=, mapping item assignment and update, rejected calls (out-of-range and non-integer indexes, extended-slice size mismatches, items the member schema rejects, undeclared keys, a sort key FUNCTION that raises) with plain, fresh, pooled and live arguments, each followed by the full observation of every kept tree and by calls that succeed; 4 % of the cases (tag sortfail:case, oracle only) are built around sorts whose COMPARISON raises (g1common.gen_sort_failure_case: Lists / Arrays / MultiValues of 2-8 Integer members mixing ints and unadapted text, nested Lists, Lists inside Dicts; keys value / cmp-raise / cmp-mutate, with and without reverse; then observe, append, a renumbering call, observe); non-trivial = the tree has at least 4 elements at some point and at least 3 "
             "calls changed it")
     quick_n = 30000
     thorough_n = 250000
@@ -444,6 +459,28 @@ class C08(Property):
                             {"t": 0, "tt": 1, "m": {"op": "update_items", "form": "pairs", "items": [["a", lv(0, 0)], ["zz", {"v": 3}]]}},
                             {"t": 0, "m": {"op": "setdefault", "k": "q", "d": 1}},
                             {"t": 0, "m": {"op": "setitem", "k": "b", "a": {"v": 2}}}]})
+        # round m1 (defect repaired by 9873cdc): `[3, 1, 2, None, 0].sort(key=lambda e: e.value)` raises TypeError inside a
+        # COMPARISON; CPython leaves the slots rearranged ([1, 2, 3, None, 0]) and the old List.sort skipped _renumber():
+        # slot names / flatten() keys / fq_name() stayed those of the old positions.  Not a rejection route: the order
+        # changes; members are a permutation, slots are named by CURRENT position, parents / root / path agree — then an
+        # append (no renumbering) and a renumbering call.  Also a key object whose `<` raises after 2 comparisons, on a
+        # nested List, and one that appends to the list being sorted (ValueError: list modified during sort)
+        out.append({"schema": nums, "nomodel": True, "init": {"route": "ctor_value", "value": {"l": [3, 1, 2, None, 0]}},
+                    "ops": [{"t": 0, "s": {"op": "sort", "key": "value", "rev": False}},
+                            {"t": 0, "s": {"op": "observe"}},
+                            {"t": 0, "s": {"op": "append", "a": {"v": 4}}},
+                            {"t": 0, "s": {"op": "sort", "key": "value", "rev": True}},
+                            {"t": 0, "s": {"op": "insert", "i": 0, "a": {"v": 9}}},
+                            {"t": 0, "s": {"op": "observe"}}]})
+        lol = _cont(1, "list", [_cont(2, "list", [_sc(3, "integer", "n")], name="m")], name="l")
+        out.append({"schema": lol, "nomodel": True,
+                    "init": {"route": "ctor_value", "value": {"l": [{"l": [5, 4, 3, 2, 1]}, {"l": [1, None]}, {"l": [1, 0]}]}},
+                    "ops": [{"t": 1, "s": {"op": "sort", "key": "cmp-raise", "after": 2, "rev": False}},
+                            {"t": 0, "s": {"op": "sort", "key": "value", "rev": False}},
+                            {"t": 1, "s": {"op": "sort", "key": "cmp-mutate", "after": 1, "v": 7, "rev": True}},
+                            {"t": 0, "s": {"op": "append", "a": {"v": {"l": [8]}}}},
+                            {"t": 0, "s": {"op": "reverse"}},
+                            {"t": 0, "s": {"op": "observe"}}]})
         # oracle-only construction routes
         out.append({"schema": _cont(1, "list", [_cont(2, "dict", [_sc(3, "integer", "x")])], name="l"),
                     "init": {"route": "from_flat", "pairs": [["l_0_x", "1"], ["l_2_x", "2"], ["l_1_x", "z"]]},
@@ -458,6 +495,10 @@ class C08(Property):
 
     def _generate(self, rng, n, tier):
         for _ in range(n):
+            if rng.random() < SORT_FAILURE_SHARE:
+                # a keyed sort whose COMPARISON raises (round m1, oracle only): the list is left rearranged
+                yield G.gen_sort_failure_case(rng)
+                continue
             cid = G.Counter()
             depth = rng.choice([1, 2, 2, 3, 3])
             falsy = rng.random() < 0.3      # trees with Compound / JoinedString nodes (falsy containers with members)
@@ -584,6 +625,15 @@ class C08(Property):
                     t.append("fp:target-in-second-tree")
                 if fp["taint"]:
                     t.append("fp:aliased-elements-present")
+        for o, st in zip(case["ops"], steps[1:]):
+            sp = o.get("s") or {}
+            if sp.get("op") == "sort" and sp.get("key") in G.SORT_CMP_FAILS and not (isinstance(st["out"], dict) and "skip" in st["out"]):
+                exc = st["out"].get("exc") if isinstance(st["out"], dict) else None
+                t.append("sortfail:%s:%s" % (sp["key"], "raised-in-comparison:" + exc if exc else "sorted"))
+                if exc:
+                    t.append("sortfail:raised" + (":reverse" if sp.get("rev") else ""))
+        if G.has_sort_failure(case):
+            t.append("sortfail:case")
         if case.get("aux"):
             t.append("fp:second-tree")
         if G.has_failure_paths(case):
